@@ -239,6 +239,12 @@ TWIN_FILES = {
 # ---------------------------------------------------------------------------------
 TEXTUAL = [
     # prop, id, file, old, new
+    ('C12', 'memo-key-without-dtype', 'tensorly/tenalg/proximal.py', '    diag_matrix = tl.tensor(\n        tl.diag(2 * regularizer * tl.ones(tl.shape(tensor)[0]) + 1)\n        + tl.diag(-regularizer * tl.ones(tl.shape(tensor)[0] - 1), k=-1)\n        + tl.diag(-regularizer * tl.ones(tl.shape(tensor)[0] - 1), k=1),\n        **tl.context(tensor)\n    )\n    return tl.solve(diag_matrix, tensor)\n', '    key = (tl.get_backend(), tl.shape(tensor)[0], float(regularizer))\n    diag_matrix = _SYSTEMS.get(key)\n    if diag_matrix is None:\n        diag_matrix = tl.tensor(\n            tl.diag(2 * regularizer * tl.ones(tl.shape(tensor)[0]) + 1)\n            + tl.diag(-regularizer * tl.ones(tl.shape(tensor)[0] - 1), k=-1)\n            + tl.diag(-regularizer * tl.ones(tl.shape(tensor)[0] - 1), k=1),\n            **tl.context(tensor)\n        )\n        _SYSTEMS[key] = diag_matrix\n    return tl.solve(diag_matrix, tensor)\n\n\n_SYSTEMS = {}\n'),
+    ('C12', 'memo-value-edited-in-place', 'tensorly/tenalg/proximal.py', '    diag_matrix = tl.tensor(\n        tl.diag(2 * regularizer * tl.ones(tl.shape(tensor)[0]) + 1)\n        + tl.diag(-regularizer * tl.ones(tl.shape(tensor)[0] - 1), k=-1)\n        + tl.diag(-regularizer * tl.ones(tl.shape(tensor)[0] - 1), k=1),\n        **tl.context(tensor)\n    )\n    return tl.solve(diag_matrix, tensor)\n', '    key = (tl.get_backend(), tl.shape(tensor)[0], float(regularizer), str(tl.context(tensor)))\n    diag_matrix = _SYSTEMS.get(key)\n    if diag_matrix is None:\n        diag_matrix = tl.tensor(\n            tl.diag(2 * regularizer * tl.ones(tl.shape(tensor)[0]) + 1)\n            + tl.diag(-regularizer * tl.ones(tl.shape(tensor)[0] - 1), k=-1)\n            + tl.diag(-regularizer * tl.ones(tl.shape(tensor)[0] - 1), k=1),\n            **tl.context(tensor)\n        )\n        _SYSTEMS[key] = diag_matrix\n    diag_matrix += 0 * regularizer\n    return tl.solve(diag_matrix, tensor)\n\n\n_SYSTEMS = {}\n'),
+    ('C18', 'memo-key-without-dtype', 'tensorly/tenalg/proximal.py', '    diag_matrix = tl.tensor(\n        tl.diag(2 * regularizer * tl.ones(tl.shape(tensor)[0]) + 1)\n        + tl.diag(-regularizer * tl.ones(tl.shape(tensor)[0] - 1), k=-1)\n        + tl.diag(-regularizer * tl.ones(tl.shape(tensor)[0] - 1), k=1),\n        **tl.context(tensor)\n    )\n    return tl.solve(diag_matrix, tensor)\n', '    key = (tl.get_backend(), tl.shape(tensor)[0], float(regularizer))\n    diag_matrix = _SYSTEMS.get(key)\n    if diag_matrix is None:\n        diag_matrix = tl.tensor(\n            tl.diag(2 * regularizer * tl.ones(tl.shape(tensor)[0]) + 1)\n            + tl.diag(-regularizer * tl.ones(tl.shape(tensor)[0] - 1), k=-1)\n            + tl.diag(-regularizer * tl.ones(tl.shape(tensor)[0] - 1), k=1),\n            **tl.context(tensor)\n        )\n        _SYSTEMS[key] = diag_matrix\n    return tl.solve(diag_matrix, tensor)\n\n\n_SYSTEMS = {}\n'),
+    ('C18', 'memo-value-edited-in-place', 'tensorly/tenalg/proximal.py', '    diag_matrix = tl.tensor(\n        tl.diag(2 * regularizer * tl.ones(tl.shape(tensor)[0]) + 1)\n        + tl.diag(-regularizer * tl.ones(tl.shape(tensor)[0] - 1), k=-1)\n        + tl.diag(-regularizer * tl.ones(tl.shape(tensor)[0] - 1), k=1),\n        **tl.context(tensor)\n    )\n    return tl.solve(diag_matrix, tensor)\n', '    key = (tl.get_backend(), tl.shape(tensor)[0], float(regularizer), str(tl.context(tensor)))\n    diag_matrix = _SYSTEMS.get(key)\n    if diag_matrix is None:\n        diag_matrix = tl.tensor(\n            tl.diag(2 * regularizer * tl.ones(tl.shape(tensor)[0]) + 1)\n            + tl.diag(-regularizer * tl.ones(tl.shape(tensor)[0] - 1), k=-1)\n            + tl.diag(-regularizer * tl.ones(tl.shape(tensor)[0] - 1), k=1),\n            **tl.context(tensor)\n        )\n        _SYSTEMS[key] = diag_matrix\n    diag_matrix += 0 * regularizer\n    return tl.solve(diag_matrix, tensor)\n\n\n_SYSTEMS = {}\n'),
+    ('C11', 'memo-key-without-dtype', 'tensorly/tenalg/proximal.py', '    diag_matrix = tl.tensor(\n        tl.diag(2 * regularizer * tl.ones(tl.shape(tensor)[0]) + 1)\n        + tl.diag(-regularizer * tl.ones(tl.shape(tensor)[0] - 1), k=-1)\n        + tl.diag(-regularizer * tl.ones(tl.shape(tensor)[0] - 1), k=1),\n        **tl.context(tensor)\n    )\n    return tl.solve(diag_matrix, tensor)\n', '    key = (tl.get_backend(), tl.shape(tensor)[0], float(regularizer))\n    diag_matrix = _SYSTEMS.get(key)\n    if diag_matrix is None:\n        diag_matrix = tl.tensor(\n            tl.diag(2 * regularizer * tl.ones(tl.shape(tensor)[0]) + 1)\n            + tl.diag(-regularizer * tl.ones(tl.shape(tensor)[0] - 1), k=-1)\n            + tl.diag(-regularizer * tl.ones(tl.shape(tensor)[0] - 1), k=1),\n            **tl.context(tensor)\n        )\n        _SYSTEMS[key] = diag_matrix\n    return tl.solve(diag_matrix, tensor)\n\n\n_SYSTEMS = {}\n'),
+    ('C11', 'memo-value-edited-in-place', 'tensorly/tenalg/proximal.py', '    diag_matrix = tl.tensor(\n        tl.diag(2 * regularizer * tl.ones(tl.shape(tensor)[0]) + 1)\n        + tl.diag(-regularizer * tl.ones(tl.shape(tensor)[0] - 1), k=-1)\n        + tl.diag(-regularizer * tl.ones(tl.shape(tensor)[0] - 1), k=1),\n        **tl.context(tensor)\n    )\n    return tl.solve(diag_matrix, tensor)\n', '    key = (tl.get_backend(), tl.shape(tensor)[0], float(regularizer), str(tl.context(tensor)))\n    diag_matrix = _SYSTEMS.get(key)\n    if diag_matrix is None:\n        diag_matrix = tl.tensor(\n            tl.diag(2 * regularizer * tl.ones(tl.shape(tensor)[0]) + 1)\n            + tl.diag(-regularizer * tl.ones(tl.shape(tensor)[0] - 1), k=-1)\n            + tl.diag(-regularizer * tl.ones(tl.shape(tensor)[0] - 1), k=1),\n            **tl.context(tensor)\n        )\n        _SYSTEMS[key] = diag_matrix\n    diag_matrix += 0 * regularizer\n    return tl.solve(diag_matrix, tensor)\n\n\n_SYSTEMS = {}\n'),
     ("C17", "restore-publishes", "tensorly/backend/__init__.py", "cls.set_backend(_old_backend, local_threadsafe=local_threadsafe)", "cls.set_backend(_old_backend)"),
     ("C17", "no-finally", "tensorly/backend/__init__.py", "        try:\n            yield\n        finally:\n            cls.set_backend(_old_backend, local_threadsafe=local_threadsafe)", "        yield\n        cls.set_backend(_old_backend, local_threadsafe=local_threadsafe)"),
     ("C17", "unguarded-shared-store", "tensorly/backend/__init__.py", "        if not local_threadsafe:\n            cls._default_backend = backend.backend_name\n            cls._backend = backend", "        cls._default_backend = backend.backend_name\n        cls._backend = backend"),
@@ -470,6 +476,9 @@ def gen_textual() -> List[Variant]:
 
 
 TEXTUAL_TWINS = [
+    ('C12', 'memo-keyed-by-all-inputs', 'tensorly/tenalg/proximal.py', '    diag_matrix = tl.tensor(\n        tl.diag(2 * regularizer * tl.ones(tl.shape(tensor)[0]) + 1)\n        + tl.diag(-regularizer * tl.ones(tl.shape(tensor)[0] - 1), k=-1)\n        + tl.diag(-regularizer * tl.ones(tl.shape(tensor)[0] - 1), k=1),\n        **tl.context(tensor)\n    )\n    return tl.solve(diag_matrix, tensor)\n', '    key = (tl.get_backend(), tl.shape(tensor)[0], float(regularizer), str(tl.context(tensor)))\n    diag_matrix = _SYSTEMS.get(key)\n    if diag_matrix is None:\n        diag_matrix = tl.tensor(\n            tl.diag(2 * regularizer * tl.ones(tl.shape(tensor)[0]) + 1)\n            + tl.diag(-regularizer * tl.ones(tl.shape(tensor)[0] - 1), k=-1)\n            + tl.diag(-regularizer * tl.ones(tl.shape(tensor)[0] - 1), k=1),\n            **tl.context(tensor)\n        )\n        _SYSTEMS[key] = diag_matrix\n    return tl.solve(diag_matrix, tensor)\n\n\n_SYSTEMS = {}\n'),
+    ('C18', 'memo-keyed-by-all-inputs', 'tensorly/tenalg/proximal.py', '    diag_matrix = tl.tensor(\n        tl.diag(2 * regularizer * tl.ones(tl.shape(tensor)[0]) + 1)\n        + tl.diag(-regularizer * tl.ones(tl.shape(tensor)[0] - 1), k=-1)\n        + tl.diag(-regularizer * tl.ones(tl.shape(tensor)[0] - 1), k=1),\n        **tl.context(tensor)\n    )\n    return tl.solve(diag_matrix, tensor)\n', '    key = (tl.get_backend(), tl.shape(tensor)[0], float(regularizer), str(tl.context(tensor)))\n    diag_matrix = _SYSTEMS.get(key)\n    if diag_matrix is None:\n        diag_matrix = tl.tensor(\n            tl.diag(2 * regularizer * tl.ones(tl.shape(tensor)[0]) + 1)\n            + tl.diag(-regularizer * tl.ones(tl.shape(tensor)[0] - 1), k=-1)\n            + tl.diag(-regularizer * tl.ones(tl.shape(tensor)[0] - 1), k=1),\n            **tl.context(tensor)\n        )\n        _SYSTEMS[key] = diag_matrix\n    return tl.solve(diag_matrix, tensor)\n\n\n_SYSTEMS = {}\n'),
+    ('C11', 'memo-keyed-by-all-inputs', 'tensorly/tenalg/proximal.py', '    diag_matrix = tl.tensor(\n        tl.diag(2 * regularizer * tl.ones(tl.shape(tensor)[0]) + 1)\n        + tl.diag(-regularizer * tl.ones(tl.shape(tensor)[0] - 1), k=-1)\n        + tl.diag(-regularizer * tl.ones(tl.shape(tensor)[0] - 1), k=1),\n        **tl.context(tensor)\n    )\n    return tl.solve(diag_matrix, tensor)\n', '    key = (tl.get_backend(), tl.shape(tensor)[0], float(regularizer), str(tl.context(tensor)))\n    diag_matrix = _SYSTEMS.get(key)\n    if diag_matrix is None:\n        diag_matrix = tl.tensor(\n            tl.diag(2 * regularizer * tl.ones(tl.shape(tensor)[0]) + 1)\n            + tl.diag(-regularizer * tl.ones(tl.shape(tensor)[0] - 1), k=-1)\n            + tl.diag(-regularizer * tl.ones(tl.shape(tensor)[0] - 1), k=1),\n            **tl.context(tensor)\n        )\n        _SYSTEMS[key] = diag_matrix\n    return tl.solve(diag_matrix, tensor)\n\n\n_SYSTEMS = {}\n'),
     # behaviour-preserving rewrites: the check must stay silent
     ("C03", "parafac2-orthonormality-by-norm", "tensorly/parafac2_tensor.py", "if T.max(T.abs(inner_product - T.eye(rank, **T.context(inner_product)))) > 1e-5:", "if T.norm(inner_product - T.eye(rank, **T.context(inner_product))) > 1e-5:"),
     ("C03", "parafac2-orthonormality-local-abs", "tensorly/parafac2_tensor.py", "        if T.max(T.abs(inner_product - T.eye(rank, **T.context(inner_product)))) > 1e-5:", "        deviation = T.abs(inner_product - T.eye(rank, **T.context(inner_product)))\n        if T.max(deviation) > 1e-5:"),
